@@ -33,7 +33,7 @@ extern "C" void __wrap_free(void *p) {
 
 enum QOp { Q_PUSH, Q_PUSHTEXT, Q_PUSHTEXTLEN, Q_POP, Q_CLEAR, Q_ERRQ, Q_COUNTQ, Q_CLS, Q_COUNT };
 struct Step { int op; int code; std::string text; size_t len; };
-struct QCase { int cap = 2; int failAt = 0; std::vector<Step> steps; };
+struct QCase { int cap = 2; int failAt = 0; std::vector<Step> steps; int backlog = 0; /* errors the application re-queues from its error callback when the queue runs empty */ };
 
 static std::string stepText(const Step &s) {
     switch (s.op) {
@@ -48,14 +48,14 @@ static std::string stepText(const Step &s) {
         default: return "count";
     }
 }
-static std::string caseText(const QCase &c) { std::string s = fmt("capacity=%d failDup=%d: ", c.cap, c.failAt); size_t n = 0; for (auto &st : c.steps) { if (++n > 60) { s += fmt("... (%zu steps)", c.steps.size()); break; } s += stepText(st) + " "; } return s; }
+static std::string caseText(const QCase &c) { std::string s = fmt("capacity=%d failDup=%d%s: ", c.cap, c.failAt, c.backlog ? fmt(" backlog=%d (re-queued from the error callback when the queue runs empty)", c.backlog).c_str() : ""); size_t n = 0; for (auto &st : c.steps) { if (++n > 60) { s += fmt("... (%zu steps)", c.steps.size()); break; } s += stepText(st) + " "; } return s; }
 static std::string replayOf(const QCase &c) {
-    std::string s = fmt("cap=%d\nfailat=%d\nsteps=", c.cap, c.failAt);
+    std::string s = fmt("cap=%d\nfailat=%d\nbacklog=%d\nsteps=", c.cap, c.failAt, c.backlog);
     for (auto &st : c.steps) s += fmt("%d:%d:%zu:%s;", st.op, st.code, st.len, hexEnc(st.text).c_str());
     return s + "\n";
 }
 static QCase fromReplay(const Replay &r) {
-    QCase c; c.cap = (int) r.num("cap", 2); c.failAt = (int) r.num("failat");
+    QCase c; c.cap = (int) r.num("cap", 2); c.failAt = (int) r.num("failat"); c.backlog = (int) r.num("backlog", 0);
     std::string s = r.get("steps"); size_t i = 0;
     while (i < s.size()) {
         size_t e = s.find(';', i); if (e == std::string::npos) break;
@@ -90,13 +90,18 @@ static std::string runCase(const QCase &c, Hist10 *h = nullptr) {
     std::string fail;
     {
         Inst I(k);
+        I.repush = c.backlog;
         g_track = true;
         std::deque<MEntry> model;
         bool overflowed = false; int pushes = 0;
+        bool announced = false;          // an error was announced since the last "queue empty" notification (the library's QMA bit)
+        int modelRepushed = 0;
         for (size_t si = 0; si < c.steps.size() && fail.empty(); si++) {
             const Step &st = c.steps[si];
             auto where = [&]() { return fmt(" at step %zu (%s) of [", si, stepText(st).c_str()) + caseText(c) + "]"; };
             I.out.clear(); I.trace.clear();
+            bool wasNonEmpty = !model.empty(); int dupFailedBeforeOp = g_dupFailed;
+            if (st.op <= Q_PUSHTEXTLEN) announced = true;
             if (st.op <= Q_PUSHTEXTLEN) {
                 MEntry e; e.code = st.code; e.hasText = false; e.textMayBeMissing = false;
                 int dupBefore = g_dupFailed;
@@ -147,10 +152,24 @@ static std::string runCase(const QCase &c, Hist10 *h = nullptr) {
                 I.input("SYST:ERR:COUN?\n");
                 if (I.out != fmt("%zu\r\n", model.size())) fail = "SYST:ERR:COUN? printed '" + vis(I.out) + fmt("', model has %zu", model.size()) + where();
             }
+            // the queue ran empty in this operation: the library says so once (callback with 0), and the application re-queues
+            if (st.op > Q_PUSHTEXTLEN && st.op != Q_COUNTQ && model.empty() && announced && (wasNonEmpty || st.op == Q_CLEAR || st.op == Q_CLS)) {
+                announced = false;
+                if (modelRepushed < c.backlog) {
+                    modelRepushed++;
+                    MEntry e; e.code = -330 - modelRepushed; e.textMayBeMissing = false; e.hasText = false;
+#if HAVE_INFO
+                    e.hasText = g_dupFailed == dupFailedBeforeOp; e.text = fmt("again%d", modelRepushed);
+#endif
+                    model.push_back(e); announced = true;
+                }
+            }
+            (void) dupFailedBeforeOp; (void) wasNonEmpty;
             if (fail.empty() && SCPI_ErrorCount(&I.ctx) != (int) model.size()) fail = fmt("SCPI_ErrorCount is %d, model has %zu", (int) SCPI_ErrorCount(&I.ctx), model.size()) + where();
             if (fail.empty() && !I.invariant.empty()) fail = I.invariant + where();
         }
         // final clear: everything still stored must be released
+        I.repush = 0;
         SCPI_ErrorClear(&I.ctx);
         if (fail.empty() && SCPI_ErrorCount(&I.ctx) != 0) fail = "queue not empty after SCPI_ErrorClear: " + caseText(c);
         g_track = false;
@@ -255,6 +274,7 @@ static QCase decode(Src &s, int maxOps) {
         c.steps.push_back(st);
     }
     c.failAt = s.prob(1, 2) && texts ? (int) s.range(1, (uint64_t) texts) : 0;
+    c.backlog = s.prob(1, 4) ? (int) s.range(1, 3) : 0;
     return c;
 }
 static int g_maxOps = 300;
@@ -267,6 +287,7 @@ static std::string body(Src &s, Ev &ev) {
     if (h.overflowThenRemove) ev.label("overflow-then-pop-or-clear");
     if (h.wrapped) ev.label("ring-wrapped");
     if (c.failAt) ev.label("with-injected-allocation-failure");
+    if (c.backlog) ev.label("application-requeues-from-error-callback");
     ev.label("duplications-made-to-fail", (uint64_t) g_dupFailed);
     if (h.overflowThenRemove || h.wrapped) ev.nt(hashStr(replayOf(c)));
     if ((h.overflowThenRemove || h.wrapped) && ev.wantSample()) { QCase d = c; if (d.steps.size() > 14) d.steps.resize(14); ev.sample("random: " + caseText(d) + (c.steps.size() > 14 ? "..." : "")); }
